@@ -95,8 +95,14 @@ var c19Sep = []string{"/", "/", "/", "//", "/./", "///"}
 
 func c19Pick(r *rand.Rand, l []string) string { return l[r.Intn(len(l))] }
 
+// names that are valid today and must keep working
+var c19Valid = []string{"a", "test", "evts", "my-index", "metrics.cpu", "host", "host.name", "logs.2024-06", "x_y", "évts", "日本", "a b", "A1",
+	"...", "..a", "a..", ".hidden", "%2e%2e", "%2f", "idx-0", "k8s.pod.name", "x.csv", "x.csv.gz", "~tmp", "a:b", "a*b"}
+
 func c19Name(r *rand.Rand) string {
-	switch r.Intn(12) {
+	switch r.Intn(15) {
+	case 12, 13, 14:
+		return c19Pick(r, c19Valid) + c19Pick(r, []string{"", "", "", "1", ".csv", ".v2"})
 	case 0, 1, 2, 3: // structured escape
 		k := r.Intn(7)
 		if r.Intn(10) == 0 {
@@ -149,6 +155,16 @@ func c19RealName(r *rand.Rand, b string) string {
 	}
 	if r.Intn(12) == 0 {
 		return c19Pick(r, []string{"", ".", "..", "/", "a/", "../", "a", "x.csv", "../x.csv", "../../x.csv", "../../../x.csv", "../../../../x.csv", "../../../../../x.csv"})
+	}
+	if !route && r.Intn(3) == 0 { // valid today, must keep working
+		n := c19Pick(r, c19Valid)
+		switch b {
+		case "inputlookup":
+			n += c19Pick(r, []string{".csv", ".csv", ".csv.gz", ""})
+		case "lookupUpload":
+			n += c19Pick(r, []string{".csv", "", ".csv.gz", ".CSV"})
+		}
+		return n
 	}
 	joinBased := b == "lookupUpload" || b == "inputlookup" || b == "suffixFile" || b == "baseSegDir"
 	var sb strings.Builder
@@ -233,7 +249,7 @@ func c19Gen(r *rand.Rand, n int, tier string) []string {
 				base = c19PathString(r)
 			}
 			out = append(out, "pjoin "+c19Hex(base)+" "+c19Hex(c19Name(r)))
-		case k < 78:
+		case k < 84:
 			out = append(out, "pbuild "+c19Pick(r, c19PureBuilders)+" "+c19Hex(c19Name(r)))
 		default:
 			b := c19Pick(r, c19RealBuilders)
